@@ -891,3 +891,226 @@ Proof.
   unfold bal_rows. destruct (mark_ok ord cp o ps (max_depth ps) []) as [m ->]. cbn [bind].
   apply map_res'_ok. intros a. apply brow_of_ok.
 Qed.
+
+(* ------------------------------------------------ collapse_posts (reg --depth n) *)
+
+Definition mapq (c : option comm) (P : path -> bool) (m : list (path * value)) : Q :=
+  sumq (fun kv => if P (fst kv) then den (snd kv) c else 0) m.
+
+Lemma tot_add_den ord c (P : path -> bool) k a : forall m m',
+  tot_add ord k a m = Ok m' ->
+  mapq c P m' == mapq c P m + (if P k then at_comm a c else 0).
+Proof.
+  unfold mapq. induction m as [|[k' v] m IH]; intros m'; cbn [tot_add sumq].
+  - intros [= <-]. cbn [sumq fst snd den]. ring.
+  - destruct (path_eqb k k') eqn:E.
+    + destruct (v_add ord v (VAmt a)) as [v'|] eqn:Ev; cbn [bind]; [|discriminate].
+      intros [= <-]. cbn [sumq fst snd]. apply path_eqb_eq in E. subst k'.
+      pose proof (v_add_exact _ _ _ _ c Ev) as Hd. cbn [den] in Hd.
+      destruct (P k); [rewrite Hd|]; ring.
+    + destruct (tot_add ord k a m) as [r|] eqn:Er; cbn [bind]; [|discriminate].
+      intros [= <-]. cbn [sumq fst snd]. rewrite (IH r eq_refl). ring.
+Qed.
+
+Lemma collapse_xact_den ord c (P : path -> bool) n o : forall sp m m',
+  collapse_xact ord n o sp m = Ok m' ->
+  mapq c P m' == mapq c P m +
+                 sumq (fun p => if P (truncate_path n (p_acct p)) then at_comm (amt o p) c else 0) sp.
+Proof.
+  induction sp as [|p sp IH]; intros m m'; cbn [collapse_xact sumq].
+  - intros [= <-]. ring.
+  - destruct (tot_add ord _ _ m) as [m1|] eqn:E; cbn [bind]; [|discriminate].
+    intros H. rewrite (IH _ _ H), (tot_add_den _ c P _ _ _ _ E). ring.
+Qed.
+
+(* an account at depth <= n sees the same postings below it before and after truncation *)
+Lemma is_prefix_truncate n a b :
+  (Z.of_nat (length a) <= n)%Z -> is_prefix a (truncate_path n b) = is_prefix a b.
+Proof.
+  intros Hl. unfold truncate_path.
+  assert (Hn : (length a <= Z.to_nat n)%nat) by lia.
+  destruct (is_prefix a b) eqn:E.
+  - apply is_prefix_spec in E. apply is_prefix_spec. rewrite firstn_firstn.
+    replace (Nat.min (length a) (Z.to_nat n)) with (length a) by lia. exact E.
+  - destruct (is_prefix a (firstn (Z.to_nat n) b)) eqn:E2; [|reflexivity].
+    apply is_prefix_spec in E2. rewrite firstn_firstn in E2.
+    replace (Nat.min (length a) (Z.to_nat n)) with (length a) in E2 by lia.
+    apply is_prefix_spec in E2. congruence.
+Qed.
+
+Lemma group_xacts_concat : forall sp cur curx,
+  concat (group_xacts sp cur curx) = rev cur ++ sp.
+Proof.
+  induction sp as [|p sp IH]; intros cur curx; cbn [group_xacts].
+  - destruct cur; cbn [concat rev app]; [reflexivity|]. rewrite !app_nil_r. reflexivity.
+  - destruct (p_xact p =? curx)%Z.
+    + rewrite IH. cbn [rev]. rewrite <- app_assoc. reflexivity.
+    + destruct cur as [|q cur].
+      * rewrite IH. reflexivity.
+      * cbn [concat]. rewrite IH. cbn [rev app]. rewrite <- app_assoc. reflexivity.
+Qed.
+
+Lemma sumq_concat {A} (g : A -> Q) : forall ls, sumq g (concat ls) == sumq (fun l => sumq g l) ls.
+Proof.
+  induction ls as [|l ls IH]; cbn [concat sumq]; [reflexivity|]. rewrite sumq_app, IH. reflexivity.
+Qed.
+
+Lemma map_res'_sum {A B} (F : A -> res B) (G : A -> Q) (H : B -> Q) : forall l rs,
+  map_res' F l = Ok rs ->
+  (forall x r, In x l -> F x = Ok r -> H r == G x) ->
+  sumq H rs == sumq G l.
+Proof.
+  induction l as [|x l IH]; intros rs; cbn [map_res'].
+  - intros [= <-] _. reflexivity.
+  - destruct (F x) as [y|] eqn:E; cbn [bind]; [|discriminate].
+    destruct (map_res' F l) as [ys|] eqn:E2; cbn [bind]; [|discriminate].
+    intros [= <-] HG. cbn [sumq]. rewrite (IH ys eq_refl); [|intros x' r' Hx'; apply HG; right; exact Hx'].
+    rewrite (HG x y (or_introl eq_refl) E). reflexivity.
+Qed.
+
+(* with --depth n, the balance of an account at depth <= n is the sum of the collapsed
+   register rows (per-transaction sub-totals) of it and its sub-accounts *)
+Lemma bal_eq_reg_depth_gen ord ord' o ps n a v gs c :
+  (Z.of_nat (length a) <= n)%Z ->
+  total_of ord o ps a = Ok v ->
+  collapsed ord' n o ps = Ok gs ->
+  den v c == sumq (fun g => mapq c (is_prefix a) g) gs.
+Proof.
+  intros Hl Hv Hg. rewrite (total_of_den _ _ _ _ _ c Hv). unfold collapsed in Hg.
+  rewrite (map_res'_sum _ (fun g => sumq (fun p => if is_prefix a (p_acct p) then at_comm (amt o p) c else 0) g)
+             (fun g => mapq c (is_prefix a) g) _ _ Hg).
+  - rewrite <- sumq_concat, group_xacts_concat. cbn [rev app].
+    unfold sel_sum, selected. rewrite sumq_filter. reflexivity.
+  - intros g m _ Hm. rewrite (collapse_xact_den _ c (is_prefix a) _ _ _ _ _ Hm).
+    unfold mapq at 1. cbn [sumq].
+    rewrite (sumq_ext_in _ (fun p => if is_prefix a (p_acct p) then at_comm (amt o p) c else 0)); [ring|].
+    intros p _. rewrite (is_prefix_truncate n a _ Hl). reflexivity.
+Qed.
+
+(* every collapsed row is at depth <= n *)
+Lemma tot_add_keys ord k a : forall m m',
+  tot_add ord k a m = Ok m' -> forall k', In k' (map fst m') -> k' = k \/ In k' (map fst m).
+Proof.
+  induction m as [|[k0 v] m IH]; intros m'; cbn [tot_add].
+  - intros [= <-] k' [<-|[]]. left. reflexivity.
+  - destruct (path_eqb k k0) eqn:E.
+    + destruct (v_add ord v (VAmt a)); cbn [bind]; [|discriminate]. intros [= <-] k' H. right. exact H.
+    + destruct (tot_add ord k a m) as [r|] eqn:Er; cbn [bind]; [|discriminate].
+      intros [= <-] k' [<-|H]; [right; left; reflexivity|].
+      destruct (IH r eq_refl k' H) as [->|H']; [left; reflexivity|right; right; exact H'].
+Qed.
+
+Lemma collapse_xact_depth ord n o : (0 <= n)%Z -> forall sp m m',
+  collapse_xact ord n o sp m = Ok m' ->
+  (forall k, In k (map fst m) -> (Z.of_nat (length k) <= n)%Z) ->
+  forall k, In k (map fst m') -> (Z.of_nat (length k) <= n)%Z.
+Proof.
+  intros Hn. induction sp as [|p sp IH]; intros m m'; cbn [collapse_xact].
+  - intros [= <-] H. exact H.
+  - destruct (tot_add ord _ _ m) as [m1|] eqn:E; cbn [bind]; [|discriminate].
+    intros H Hm. apply (IH _ _ H). intros k Hk.
+    destruct (tot_add_keys _ _ _ _ _ E k Hk) as [->|Hk']; [|apply Hm; exact Hk'].
+    unfold truncate_path. rewrite firstn_length. lia.
+Qed.
+
+(* ------------------------------------------------ the lazy walk of account_t::amount() *)
+
+Definition lp_q (c : option comm) (x : lpost) : Q := if lp_fresh x then at_comm (lp_amt x) c else 0.
+
+Lemma lp_consider_not_fresh x : lp_fresh (lp_consider x) = false.
+Proof.
+  unfold lp_consider. destruct (lp_fresh x) eqn:E; [reflexivity|exact E].
+Qed.
+
+(* one walk = the plain sum of the fresh postings, and it leaves no fresh posting behind *)
+Lemma walk_spec ord : forall l acc,
+  walk ord acc l =
+  (do t <- vsum ord acc (map lp_amt (filter lp_fresh l)); Ok (t, map lp_consider l)).
+Proof.
+  induction l as [|x l IH]; intros acc; cbn [walk filter map vsum bind]; [reflexivity|].
+  destruct (lp_fresh x) eqn:E; cbn [map vsum].
+  - destruct (v_add ord acc (VAmt (lp_amt x))) as [t|]; cbn [bind]; [|reflexivity].
+    rewrite IH. destruct (vsum ord t _); cbn [bind fst snd]; reflexivity.
+  - rewrite IH. destruct (vsum ord acc _); cbn [bind fst snd]; [|reflexivity].
+    assert (Hx : lp_consider x = x) by (unfold lp_consider; rewrite E; reflexivity).
+    rewrite Hx. reflexivity.
+Qed.
+
+Lemma filter_fresh_none l : (forall x, In x l -> lp_fresh x = false) -> filter lp_fresh l = [].
+Proof.
+  induction l as [|x l IH]; intros H; cbn [filter]; [reflexivity|].
+  rewrite (H x (or_introl eq_refl)). apply IH. intros y Hy. apply H. right. exact Hy.
+Qed.
+
+Lemma map_consider_id l : (forall x, In x l -> lp_fresh x = false) -> map lp_consider l = l.
+Proof.
+  induction l as [|x l IH]; intros H; cbn [map]; [reflexivity|].
+  unfold lp_consider at 1. rewrite (H x (or_introl eq_refl)). f_equal. apply IH.
+  intros y Hy. apply H. right. exact Hy.
+Qed.
+
+(* any call: provided no fresh posting lies before last_post (true when postings are appended
+   and visited in file order), the call returns the old total plus every fresh posting, and
+   afterwards nothing is fresh - so a repeated call adds nothing *)
+Lemma amount_call_den ord sd posts sd' posts' c :
+  (forall x, In x (firstn (match sd_last sd with Some i => i | None => O end) posts) ->
+             lp_fresh x = false) ->
+  amount_call ord sd posts = Ok (sd', posts') ->
+  den (sd_total sd') c == den (sd_total sd) c + sumq (lp_q c) posts /\
+  (forall x, In x posts' -> lp_fresh x = false) /\
+  length posts' = length posts.
+Proof.
+  unfold amount_call. set (start := match sd_last sd with Some i => i | None => O end).
+  intros Hpre. rewrite walk_spec.
+  destruct (vsum ord (sd_total sd) (map lp_amt (filter lp_fresh (skipn start posts)))) as [t|] eqn:E;
+    cbn [bind]; [|discriminate].
+  intros [= <- <-]. cbn [sd_total fst snd]. repeat split.
+  - rewrite (vsum_den ord c _ _ _ E). rewrite <- (firstn_skipn start posts) at 2.
+    rewrite sumq_app. rewrite sumq_map.
+    assert (E1 : sumq (lp_q c) (firstn start posts) == 0).
+    { rewrite (sumq_ext_in _ (fun _ => 0)); [apply sumq_zero|].
+      intros x Hx. unfold lp_q. rewrite (Hpre x Hx). reflexivity. }
+    rewrite E1, sumq_filter. unfold lp_q, amtq. ring.
+  - intros x Hx. apply in_app_or in Hx as [Hx|Hx]; [apply Hpre; exact Hx|].
+    apply in_map_iff in Hx as (y & <- & _). apply lp_consider_not_fresh.
+  - rewrite app_length, map_length, <- app_length, firstn_skipn. reflexivity.
+Qed.
+
+(* the first call on fresh flags is `own` *)
+Lemma fresh_of_new (f : posting -> amount) (s : posting -> bool) : forall l,
+  map lp_amt (filter lp_fresh (map (fun p => mkLpost (f p) (s p) false) l)) = map f (filter s l).
+Proof.
+  induction l as [|x l IH]; cbn [map filter]; [reflexivity|].
+  unfold lp_fresh at 1. cbn [lp_visited lp_considered negb]. rewrite andb_true_r.
+  destruct (s x); cbn [map]; rewrite IH; reflexivity.
+Qed.
+
+Lemma filter_comm {A} (P Q' : A -> bool) : forall l, filter P (filter Q' l) = filter Q' (filter P l).
+Proof.
+  induction l as [|x l IH]; cbn [filter]; [reflexivity|].
+  destruct (P x) eqn:EP; destruct (Q' x) eqn:EQ; cbn [filter]; rewrite ?EP, ?EQ, IH; reflexivity.
+Qed.
+
+Lemma acct_lposts_fresh o ps a :
+  map lp_amt (filter lp_fresh (acct_lposts o ps a)) = map (amt o) (own_posts (selected o ps) a).
+Proof.
+  unfold acct_lposts, own_posts, selected. rewrite fresh_of_new, filter_comm. reflexivity.
+Qed.
+
+Lemma own_lazy_eq ord o ps a :
+  own_lazy_twice ord o ps a = own_of ord o ps a.
+Proof.
+  unfold own_lazy_twice, own_of, own. unfold amount_call at 1. cbn [sd_last sd_total skipn firstn app].
+  rewrite walk_spec, acct_lposts_fresh.
+  destruct (vsum ord VVoid (map (amt o) (own_posts (selected o ps) a))) as [t|] eqn:E; cbn [bind fst snd];
+    [|reflexivity].
+  unfold amount_call. cbn [sd_last sd_total]. rewrite walk_spec.
+  set (l1 := map lp_consider (acct_lposts o ps a)).
+  assert (Hnf : forall x, In x l1 -> lp_fresh x = false).
+  { intros x Hx. apply in_map_iff in Hx as (y & <- & _). apply lp_consider_not_fresh. }
+  set (st := match (match acct_lposts o ps a with [] => None | _ => Some (length (acct_lposts o ps a) - 1)%nat end)
+             with Some i => i | None => O end).
+  rewrite (filter_fresh_none (skipn st l1)).
+  - cbn [map vsum bind fst snd sd_total]. reflexivity.
+  - intros x Hx. apply Hnf. rewrite <- (firstn_skipn st l1). apply in_or_app. right. exact Hx.
+Qed.
